@@ -11,6 +11,8 @@ TEXT_POOLS = [
     'ab', 'abc', 'ab-', 'ab ', 'a-b ', 'xab', 'aAb', 'ab\t', 'ab\n', 'a b\n', 'ab:', 'ab+', 'a0-5', 'aß', 'aǅb',
     'a\U0001d4b3b', 'é-a', 'ab\r\n', 'ab-\t ', 'Ab c',
     'a\x0bb\x0c', 'ab\x85\u2028', 'a\x1cb\r', 'a\u0130b', '\u0149ab', 'ab \xa0', 'aB\u00df\n',
+    # case-equivalence classes beyond lower()/upper(): long s, dotless/dotted i, micro/mu, sigmas, Kelvin sign
+    's\u017fS-', 'i\u0131I\u0130', '\u00b5\u03bc\u039ca', '\u03c3\u03c2\u03a3 ', 'kK\u212a-', '\ufb01fi\u1e9e\u00df',
 ]
 
 ALL_KINDS = ['new', 'conv', 'apply', 'remove', 'clear', 'slice', 'index', 'clip', 'iter', 'add', 'iadd', 'join', 'pad',
